@@ -77,8 +77,7 @@ def multilinear(axes, values: SymArray, point, bounds_error=True, fill_value=flo
         t = (p - a0) / (a1 - a0)
         cells.append(i)
         ws.append(t)
-    if log is not None:
-        log.append({"cell": tuple(cells), "weights": ws})
+    InterpRecorder.cells.append({"cell": tuple(cells), "weights": ws})
     res = None
     for corner in itertools.product((0, 1), repeat=d):
         w = SV(c=Fr(1))
@@ -93,6 +92,7 @@ def multilinear(axes, values: SymArray, point, bounds_error=True, fill_value=flo
 
 class InterpRecorder:
     calls = []
+    cells = []
 
 
 def _points(xi, d):
